@@ -38,6 +38,8 @@ func propC06(w *World, r *Report) {
 	RunMemoKey(w, r, gt)
 	RunReuseKey(w, r, gt)
 	RunControl(r, "reusekey", "ctlContext).reuse", RunReuseKey)
+	RunMapMiss(w, r, gt)
+	r.Floor("mapmiss", 10)
 	RunIterFresh(w, r, gt)
 	RunIterFreshControl(r)
 	r.Floor("iterfresh", 3)
@@ -83,6 +85,8 @@ func propC07(w *World, r *Report) {
 	runLoopTerm(w, r, br, fns, false)
 	r.Floor("bounds", 200)
 	r.Floor("loopterm", 50)
+	RunMapMiss(w, r, fns)
+	r.Floor("mapmiss", 10)
 
 	// history independence of what the Context keeps between calls, and of
 	// per-iteration buffers (text conservation): the cache and buffer rules of C06
